@@ -2,7 +2,7 @@ SPECIFICATION Spec
 CONSTANTS
   NF = 2
   MaxLen = 10
-  Kinds = {"mod", "add", "addempty", "del", "rename", "renmod", "copy", "modeonly", "modemod", "bin", "binadd", "bare", "modebin", "renmode", "sublog", "subshort"}
+  Kinds = {"mod", "add", "addempty", "del", "rename", "renmod", "copy", "modeonly", "modemod", "bin", "binadd", "bare", "modebin", "renmode", "sublog", "subshort", "binx"}
   MaxHunks = 2
   MaxBody = 3
   Preamble = FALSE
